@@ -539,6 +539,22 @@ func (v *Verifier) evalCall(env *Env, e *Expr) *Val {
 		e2.Heap = env.OldHeap
 		e2.Epoch = env.OldEpoch
 		return v.eval(&e2, args[0])
+	case "atlock":
+		// atlock(e): e in the state right after the most recent lock acquisition on this path (for assertions at unlock sites)
+		ls := env.St
+		if ls == nil {
+			ls = env.LocalSt
+		}
+		if ls == nil || len(ls.LockSnaps) == 0 {
+			unsupportedf("atlock() used on a path that took no lock")
+		}
+		snap := ls.LockSnaps[len(ls.LockSnaps)-1]
+		e2 := *env
+		e2.LocalSt = ls
+		e2.St = nil
+		e2.Heap = snap.Heap
+		e2.Epoch = snap.Epoch
+		return v.eval(&e2, args[0])
 	case "entry":
 		// entry(e): e in the state at the first arrival at the (innermost) loop whose invariant is being stated;
 		// after the loop: the state at the first arrival at the last loop entered
@@ -595,6 +611,28 @@ func (v *Verifier) evalCall(env *Env, e *Expr) *Val {
 	case "open":
 		c := arg(0)
 		return boolVal(Or(Eq(c.Term, IntLit(0)), Not(hs.closed(c.Term))))
+	case "smhas", "smval":
+		// smhas(M, key) / smval(M, key): ghost table of a sync.Map (keys are boxed as interface values)
+		a := v.syncRef(env, args[0])
+		var r *Term
+		if env.X != nil {
+			r = env.X.refOf(a)
+		} else {
+			r = a.Term
+		}
+		kv := arg(1)
+		var ts []*Term
+		flatten(kv, &ts)
+		key := kv.Term
+		if _, isIface := kv.T.Underlying().(*types.Interface); !isIface {
+			key = boxTerm(ts, kv.T)
+		}
+		if name == "smhas" {
+			return boolVal(Select(Select(hs.heapGet("G$smhas", ArrSort(SInt, ArrSort(SInt, SBool))), r), key))
+		}
+		return &Val{T: types.NewInterfaceType(nil, nil), Term: Select(Select(hs.heapGet("G$smval", ArrSort(SInt, ArrSort(SInt, SInt))), r), key)}
+	case "closeonly":
+		return boolVal(hs.closeOnly(arg(0).Term))
 	case "clen":
 		return intVal(Select(hs.ghostArr("clen", SInt), arg(0).Term))
 	case "ccap":
@@ -780,18 +818,44 @@ func (v *Verifier) evalCall(env *Env, e *Expr) *Val {
 			unsupportedf("gf: not a pointer to a struct")
 		}
 		key := heapKeyField(ns, "#"+args[0].Op)
-		t := Select(hs.heapGet(key, ArrSort(SInt, SInt)), o.Term)
-		var rt types.Type = types.Typ[types.UnsafePointer]
-		if tc := v.C.Types[typeName(ns)]; tc != nil {
-			if gt, ok := tc.GhostFields[args[0].Op]; ok {
-				e2 := *env
-				e2.Pkg = v.P.TPkgs[tc.Pkg]
-				rt = v.resolveType(&e2, gt)
-			}
-		}
+		srt, rt := v.ghostFieldSort(ns, args[0].Op)
+		t := Select(hs.heapGet(key, ArrSort(SInt, srt)), o.Term)
 		return &Val{T: rt, Term: t}
 	case "spawned":
 		return intVal(hs.ghostInt("spawned$" + args[0].Lit))
+	case "spawnfv":
+		// spawnfv("(*T).f$1", "x", k): the value of captured variable x when the k-th goroutine running that closure was started
+		fam := fmt.Sprintf("G$spawnfv$%s$%s", args[0].Lit, args[1].Lit)
+		srt := SInt
+		if s0, ok := heapSorts[fam]; ok {
+			_, srt = arrParts(s0)
+		}
+		return &Val{T: types.Typ[types.UnsafePointer], Term: Select(hs.heapGet(fam, ArrSort(SInt, srt)), arg(2).Term)}
+	case "spawnarg":
+		if fn := v.P.Funcs[env.Pkg.Name()+"."+args[0].Lit]; fn != nil {
+			var ai int
+			fmt.Sscanf(args[1].Lit, "%d", &ai)
+			if ai < len(fn.Params) && shapeOf(fn.Params[ai].Type()) == shSlice {
+				pre := fmt.Sprintf("G$spawnarg$%s$%d$", args[0].Lit, ai)
+				k := arg(2).Term
+				return &Val{T: fn.Params[ai].Type(), Fields: []*Val{{Term: Select(hs.heapGet(pre+"base", ArrSort(SInt, SInt)), k)}, {Term: Select(hs.heapGet(pre+"len", ArrSort(SInt, SInt)), k)}}}
+			}
+		}
+		fam := fmt.Sprintf("G$spawnarg$%s$%s", args[0].Lit, args[1].Lit)
+		srt := SInt
+		var at types.Type = types.Typ[types.UnsafePointer]
+		if fn := v.P.Funcs[env.Pkg.Name()+"."+args[0].Lit]; fn != nil {
+			var ai int
+			fmt.Sscanf(args[1].Lit, "%d", &ai)
+			if ai < len(fn.Params) && shapeOf(fn.Params[ai].Type()) == shLeaf {
+				at = fn.Params[ai].Type()
+				srt = leafSort(at)
+			}
+		}
+		if s0, ok := heapSorts[fam]; ok {
+			_, srt = arrParts(s0)
+		}
+		return &Val{T: at, Term: Select(hs.heapGet(fam, ArrSort(SInt, srt)), arg(2).Term)}
 	case "recvs":
 		return intVal(hs.ghostInt("recvs$" + exprText(args[0])))
 	case "sends":
@@ -1002,10 +1066,38 @@ func (v *Verifier) applySpec(env *Env, sf *SpecFunc, args []*Val) *Val {
 		e2.Pkg = specPkg
 	}
 	for i, p := range sf.Params {
-		e2.Vars[p.Name] = args[i]
+		a := args[i]
+		if a != nil && a.Term != nil && a.Fields == nil && p.Type != "" {
+			// an untyped ghost value (e.g. a logged call argument) takes the declared parameter type
+			if _, isPtr := a.T.(*types.Pointer); !isPtr {
+				if pt := v.resolveType(&e2, p.Type); pt != nil && leafSortOK(pt, a.Term.Sort) {
+					a = &Val{T: pt, Term: a.Term}
+				}
+			}
+		}
+		e2.Vars[p.Name] = a
 	}
 	e2.Fn = nil
 	return v.eval(&e2, sf.Body)
+}
+
+// ghostFieldSort: sort and type of a declared ghost field (type clause ghostfield NAME TYPE); references by default.
+func (v *Verifier) ghostFieldSort(ns *types.Named, name string) (Sort, types.Type) {
+	var rt types.Type = types.Typ[types.UnsafePointer]
+	if tc := v.C.Types[typeName(ns)]; tc != nil {
+		if gt, ok := tc.GhostFields[name]; ok {
+			e2 := &Env{V: v, Pkg: v.P.TPkgs[tc.Pkg], Vars: map[string]*Val{}}
+			rt = v.resolveType(e2, gt)
+			if shapeOf(rt) == shLeaf {
+				return leafSort(rt), rt
+			}
+		}
+	}
+	return SInt, rt
+}
+
+func leafSortOK(t types.Type, s Sort) bool {
+	return shapeOf(t) == shLeaf && leafSort(t) == s
 }
 
 // ---- recursive spec functions -> define-fun-rec ----
